@@ -869,3 +869,27 @@ package sftp
 //@   ensures len(flags) == 1 ==> (result <==> p.Pflags & flags[0] != 0)
 //@   ensures len(flags) == 2 ==> (result <==> p.Pflags & flags[0] != 0 && p.Pflags & flags[1] != 0)
 //@   modifies nothing
+
+// ---------------------------------------------------------------------------
+// C19: version and extension negotiation
+
+//@ func getSupportedExtensionByName
+//@   property C19
+//@   results ext, err
+//@   ensures err == nil ==> ext.Name == extensionName
+//@   modifies nothing
+
+//@ func SetSFTPExtensions
+//@   property C19
+//@   results err
+//@   vars k int
+//@   loop 1 invariant len(tempExtensions) == rangeindex + 1 && rangeindex < len(extensions)
+//@   loop 1 invariant sftpExtensions == old(sftpExtensions)
+//@   loop 1 invariant !samearray(tempExtensions, sftpExtensions)
+//@   loop 1 invariant 0 <= k && k < len(sftpExtensions) ==> sftpExtensions[k].Name == old(sftpExtensions[k].Name) && sftpExtensions[k].Data == old(sftpExtensions[k].Data)
+//@   ensures err != nil ==> sftpExtensions == old(sftpExtensions)
+//@   ensures err != nil && 0 <= k && k < len(sftpExtensions) ==> sftpExtensions[k].Name == old(sftpExtensions[k].Name) && sftpExtensions[k].Data == old(sftpExtensions[k].Data)
+//@   ensures err == nil ==> len(sftpExtensions) == len(extensions)
+// (not proved: err == nil ==> sftpExtensions[k].Name == extensions[k] for every k -- the copy-on-growth axiom of
+//  append under a quantifier is not decided by the installed solvers within the timeout)
+// (k is an arbitrary fixed index: each clause mentioning k is proved for every k)
